@@ -112,6 +112,18 @@ CHECKS["C15"] = dict(
     design="8/C15",
     note=TRUST + "solve_ivp/solve_bvp/linalg.solve contracts assumed; sympy.bell by definition for n <= 3; jets checked on generic polynomials.",
     technique="contract-based deductive verification: AST symbolic execution with callee/external contracts + differentiation operator, z3; bounded manufactured solutions as labelled stand-in")
+CHECKS["C10"] = dict(
+    category="proof",
+    text="Ghost invariant 'the k-d tree is absent or was built from the current public points': established by every constructor (executed "
+         "symbolically for Grid/LocalGrid/OneDGrid/PeriodicGrid; AST path analysis for the heavy subclasses incl. those bypassing Grid.__init__), "
+         "preserved by the setters, used by get_localgrid (fresh query, reuse, query after reassignment of points/weights, infinite radius) "
+         "with cKDTree as an assumed contract: the local grid is the selection by the ball's index list, integer-typed even when empty, built from "
+         "the public (centred) points for atomic grids; argument validation; __getitem__ of Grid/OneDGrid/PeriodicGrid for Python int, NumPy "
+         "integer and slice (same class, selected points/weights, same domain/lattice). Bounded layer: brute-force oracle on all grid kinds, "
+         "query/reassignment histories.",
+    design="8/C10",
+    note=TRUST + "cKDTree.query_ball_point contract assumed (exact in-ball index set); longer histories follow from the invariant.",
+    technique="contract-based deductive verification: class invariant with ghost state over AST symbolic execution of call histories, assumed callee contract for the k-d tree, z3; bounded brute-force oracle as labelled stand-in")
 BOUNDED_ONLY = {
     "C07": ("8/C07", "molecular grid = weighted concatenation of atomic grids: index table, segments, weights = atweights x aim, views with store on/off, fan-out of from_size/from_preset/from_pruned against hand-built grids, default radial grids, end-to-end 1% clause on presets"),
     "C05": ("8/C05", "atomic grid structure: shell index table, per-shell scaling/Jacobian/orthogonal image, centre shift, rotation reproducibility, shell extraction, sector map, factorised integrals, every preset file"),
